@@ -161,9 +161,15 @@ func runRt(c map[string]any, ev map[string]any) error {
 	ev["creload"] = sim.Ints(uc2.Access[:])
 
 	// (d) authorization decisions and the wire
+	ev["dworld"] = "ok"
 	w, err := sim.NewWorld(sim.WorldOpts{Accounts: []sim.Acct{{Login: "u", Name: "U", Password: "pw"}}})
 	if err != nil {
-		return err
+		// the world's own self-check (an account without privileges must load without privileges) failed: what was
+		// observed so far is still judged
+		ev["dworld"] = err.Error()
+		ev["dwire"], ev["nwire"], ev["dauth"] = []int{}, 0, []int{}
+		ev["owire"], ev["onwire"], ev["oauth"] = []int{}, 0, []int{}
+		return nil
 	}
 	defer w.Close()
 	if err := setAccess(w, "u", bits); err != nil {
